@@ -130,10 +130,19 @@ End P.
 Lemma fallback_two_instances_refuted :
   exists sched,
     let s := run _ _ fstep ({| f_marks := fun _ => false; f_locks := fun _ => false |},
-                            [ {| f_inst := 0; f_cand := 7%N; f_pc := FIdle |};
-                              {| f_inst := 1; f_cand := 7%N; f_pc := FIdle |} ]) sched in
+                            [ {| f_inst := 0; f_cand := 7%N; f_faults := []; f_pc := FIdle |};
+                              {| f_inst := 1; f_cand := 7%N; f_faults := []; f_pc := FIdle |} ]) sched in
     map f_pc (snd s) = [FDone 7%N; FDone 7%N].
 Proof. exists [0; 1; 0; 1]. vm_compute. reflexivity. Qed.
+
+(* one instance, but a failing Exists treated as "not taken": the second caller is handed the live id *)
+Lemma fallback_lenient_exists_refuted :
+  exists sched,
+    let s := run _ _ fstep_lenient ({| f_marks := fun _ => false; f_locks := fun _ => false |},
+                            [ {| f_inst := 0; f_cand := 7%N; f_faults := []; f_pc := FIdle |};
+                              {| f_inst := 0; f_cand := 7%N; f_faults := [true]; f_pc := FIdle |} ]) sched in
+    map f_pc (snd s) = [FDone 7%N; FDone 7%N].
+Proof. exists [0; 0; 1; 1]. vm_compute. reflexivity. Qed.
 
 Example gen_premises : (forall g, In g [init_gen 100 [OpGen; OpRel; OpGen] [5;5;6]%N []; init_gen 100 [OpGen] [5;6]%N [true]] -> held g = []).
 Proof. intros g [<-|[<-|[]]]; reflexivity. Qed.
@@ -175,7 +184,7 @@ Proof.
   destruct (flat_map_upd_nth f_checked ts i g g' E) as (a & b & Ha & Hb).
   destruct (flat_map_upd_nth f_done ts i g g' E) as (a' & b' & Ha' & Hb').
   rewrite Hb, Hb'. rewrite Ha in Hlen, Hfree, Hchk. rewrite Ha' in Hdone, Hnd.
-  unfold fstep in Es. destruct (f_pc g) eqn:Epc.
+  unfold fstep, fstep_gen in Es. destruct (f_pc g) eqn:Epc.
   - (* FIdle *)
     assert (Hcg : f_checked g = []) by (unfold f_checked; now rewrite Epc).
     assert (Hdg : f_done g = []) by (unfold f_done; now rewrite Epc).
@@ -184,6 +193,9 @@ Proof.
     { inversion Es; subst g' sh'. rewrite Hcg, Hdg, Elk. cbn [app].
       split; [eapply finv_upd; eauto|]. auto 10. }
     specialize (Hfree eq_refl). apply app_eq_nil in Hfree. destruct Hfree as [-> ->].
+    destruct (f_next_fault g) as [f fs]. destruct f; cbn [andb negb] in Es.
+    { inversion Es; subst g' sh'; cbn [f_marks f_locks f_inst].
+      split; [eapply finv_upd; eauto|]. cbn. rewrite Elk. auto 10. }
     destruct (f_marks sh (f_cand g)) eqn:Em; inversion Es; subst g' sh'; cbn [f_marks f_locks f_inst].
     + split; [eapply finv_upd; eauto|]. cbn. rewrite Elk. auto 10.
     + split; [eapply finv_upd; eauto|]. cbn.
@@ -197,6 +209,11 @@ Proof.
     destruct Hab as [-> ->].
     assert (Hmc : f_marks sh c = false) by (apply Hchk; cbn; auto).
     assert (Hnc : ~ In c (a' ++ b')) by (intros Hin; apply Hdone in Hin; congruence).
+    destruct (f_next_fault g) as [f fs]. destruct f.
+    { (* the Set call failed: nothing written, nothing handed out, lock released *)
+      inversion Es; subst g' sh'; cbn [f_marks f_locks f_inst].
+      split; [eapply finv_upd; eauto|]. cbn.
+      split; [lia|]. split; [reflexivity|]. split; [intros c' []|]. split; assumption. }
     inversion Es; subst g' sh'; cbn [f_marks f_locks f_inst].
     split; [eapply finv_upd; eauto|]. cbn.
     split; [lia|]. split; [reflexivity|]. split; [intros c' []|].
@@ -207,22 +224,51 @@ Proof.
     + apply NoDup_Add with (a := c) (l := a' ++ b'); [apply Add_app|split; assumption].
   - inversion Es; subst g' sh'. split; [eapply finv_upd; eauto|]. auto 10.
   - inversion Es; subst g' sh'. split; [eapply finv_upd; eauto|]. auto 10.
+  - inversion Es; subst g' sh'. split; [eapply finv_upd; eauto|]. auto 10.
 Qed.
 
-Theorem fallback_one_instance_unique (cands : list id) sched :
+Theorem fallback_one_instance_unique (cands : list (id * list bool)) sched :
   let s := run _ _ fstep ({| f_marks := fun _ => false; f_locks := fun _ => false |},
-                          map (fun c => {| f_inst := 0; f_cand := c; f_pc := FIdle |}) cands) sched in
+                          map (fun c => {| f_inst := 0; f_cand := fst c; f_faults := snd c; f_pc := FIdle |}) cands) sched in
   NoDup (flat_map f_done (snd s)).
 Proof.
   intros s. assert (H : FInv s).
   { subst s. apply inv_all_schedules; [intros s i; apply finv_step|].
     unfold FInv. cbn [fst snd].
-    assert (E1 : flat_map f_checked (map (fun c => {| f_inst := 0; f_cand := c; f_pc := FIdle |}) cands) = []).
+    assert (E1 : flat_map f_checked (map (fun c => {| f_inst := 0; f_cand := fst c; f_faults := snd c; f_pc := FIdle |}) cands) = []).
     { induction cands; cbn; auto. }
-    assert (E2 : flat_map f_done (map (fun c => {| f_inst := 0; f_cand := c; f_pc := FIdle |}) cands) = []).
+    assert (E2 : flat_map f_done (map (fun c => {| f_inst := 0; f_cand := fst c; f_faults := snd c; f_pc := FIdle |}) cands) = []).
     { induction cands; cbn; auto. }
     rewrite E1, E2. cbn.
     split; [intros g Hg; apply in_map_iff in Hg; destruct Hg as (c & <- & _); reflexivity|].
     split; [lia|]. split; [auto|]. split; [intros c []|]. split; [intros c []|constructor]. }
   destruct H as (_ & _ & _ & _ & _ & H). exact H.
+Qed.
+
+(* ---- UUID generators: whatever draws fail, the ids handed out are distinct as long as the successful draws are ---- *)
+Lemma ugen_in n : forall draws x, In x (ugen false n draws) -> In x (somes draws).
+Proof.
+  induction n as [|k IH]; intros draws x H; [destruct H|].
+  destruct draws as [|[d|] r]; cbn [ugen] in H; [destruct H| |].
+  - destruct H as [<-|H]; [left; reflexivity|right; apply IH, H].
+  - destruct r as [|[d|] r']; [destruct H| |destruct H].
+    cbn [somes flat_map app]. destruct H as [<-|H]; [left; reflexivity|right; apply IH, H].
+Qed.
+
+Theorem ugen_unique n : forall draws, NoDup (somes draws) -> NoDup (ugen false n draws).
+Proof.
+  induction n as [|k IH]; intros draws Hnd; [constructor|].
+  destruct draws as [|[d|] r]; cbn [ugen]; [constructor| |].
+  - cbn [somes flat_map app] in Hnd. inversion Hnd as [|? ? Hnin Hnd']; subst.
+    constructor; [intros Hin; apply Hnin, (ugen_in k r d Hin)|apply IH, Hnd'].
+  - destruct r as [|[d|] r']; [constructor| |constructor].
+    cbn [somes flat_map app] in Hnd. inversion Hnd as [|? ? Hnin Hnd']; subst.
+    constructor; [intros Hin; apply Hnin, (ugen_in k r' d Hin)|apply IH, Hnd'].
+Qed.
+
+Lemma ugen_shadow_refuted : exists draws, NoDup (somes draws) /\ ~ NoDup (ugen true 2 draws).
+Proof.
+  exists [None; Some 5%N; None; Some 6%N]. split.
+  - cbn. constructor; [intros [H|[]]; discriminate|constructor; [intros []|constructor]].
+  - cbn. intros H. inversion H as [|? ? Hnin _]; subst. apply Hnin. left; reflexivity.
 Qed.
